@@ -169,8 +169,9 @@ def check_case(out, g, spec):
         gr = groups("right")
     except ValueError as e:
         return str(e)
-    want_left = [("zero", z) for z in spec["zero"]] + [("minus", m) for m in spec["minus"]]
-    want_right = [("zero", z) for z in spec["zero"]] + [("plus", p) for p in spec["plus"]]
+    pre = spec.get("pre", [])
+    want_left = [("zero", z) for z in pre + spec["zero"]] + [("minus", m) for m in spec["minus"]]
+    want_right = [("zero", z) for z in pre + spec["zero"]] + [("plus", p) for p in spec["plus"]]
     for side, got, want in (("left", gl, want_left), ("right", gr, want_right)):
         if len(got) != len(want):
             return "%s panel shows %d lines, the hunk has %d for that side" % (side, len(got), len(want))
@@ -199,7 +200,7 @@ def check_case(out, g, spec):
                 if limit is not None and n > limit:
                     return "%s line occupies %d rows, limit %d" % (kind, n, limit)
     # unchanged lines: same row on both sides
-    nz = len(spec["zero"])
+    nz = len(pre) + len(spec["zero"])
     for i in range(nz):
         if gl[i]["row"] != gr[i]["row"]:
             return "unchanged line starts on row %d left but row %d right" % (gl[i]["row"], gr[i]["row"])
@@ -215,8 +216,14 @@ def observe_by_column(row, g):
 
 
 def make_input(spec):
-    lines = ["diff --git a/f.txt b/f.txt", "--- a/f.txt", "+++ b/f.txt",
-             "@@ -1,%d +1,%d @@" % (len(spec["zero"]) + len(spec["minus"]), len(spec["zero"]) + len(spec["plus"]))]
+    lines = ["diff --git a/f.txt b/f.txt", "--- a/f.txt", "+++ b/f.txt"]
+    if spec.get("pre"):
+        # an earlier hunk with one-digit line numbers; the main hunk then starts at line 12345, so the
+        # number gutter of the second hunk is wider than that of the first
+        lines += ["@@ -3,%d +3,%d @@" % (len(spec["pre"]), len(spec["pre"]))] + [" " + z for z in spec["pre"]]
+    start = 12345 if spec.get("pre") else 1
+    lines += ["@@ -%d,%d +%d,%d @@" % (start, len(spec["zero"]) + len(spec["minus"]), start,
+                                      len(spec["zero"]) + len(spec["plus"]))]
     lines += [" " + z for z in spec["zero"]] + ["-" + m for m in spec["minus"]] + ["+" + p for p in spec["plus"]]
     return ("\n".join(lines) + "\n").encode("utf-8")
 
@@ -230,6 +237,8 @@ def specs_for(content):
     yield {"zero": [], "minus": [content], "plus": [content + "b"]}
     yield {"zero": [], "minus": ["b" + content], "plus": [content]}
     yield {"zero": ["z"], "minus": [content, "q"], "plus": [content[:-1] + "c" if len(content) > 1 else "c"]}
+    # two hunks whose line numbers have different numbers of digits
+    yield {"pre": ["p"], "zero": [content], "minus": [content + "a"], "plus": ["a" + content]}
 
 
 def run_task(task):
@@ -247,7 +256,10 @@ def run_task(task):
     viols = {}
     capped = False
     sample = None
-    cases = [(c, s) for c in cont for s in specs_for(c)]
+    # (the two-hunk case widens the number gutter by one column: it needs a panel that still holds a
+    # double-width character plus the wrap symbol)
+    wide_ok = (g.W // 2 - 7 - (1 if g.markers else 0)) >= 3
+    cases = [(c, s) for c in cont for s in specs_for(c) if wide_ok or not s.get("pre")]
     for i in range(0, len(cases), 256):
         if time.time() > deadline:
             capped = True
